@@ -70,6 +70,7 @@ type runner struct {
 	seed     int64
 	start    time.Time
 	env      []string
+	generated map[string]string
 }
 
 var goEnv = []string{"GOFLAGS=-mod=mod", "GOPROXY=off", "GOSUMDB=off", "GOTOOLCHAIN=local"}
@@ -136,9 +137,30 @@ func (r *runner) writeEvidence(ev *evidence) {
 	os.WriteFile("/verif/evidence/"+r.spec.ID+".json", append(b, '\n'), 0o644)
 }
 
+// addGenerated registers a generated harness file (written to scratch) for the overlay.
+func (r *runner) addGenerated(target, name, content string) error {
+	real := filepath.Join(r.scratch, "gen_"+name)
+	if err := os.WriteFile(real, []byte(content), 0o644); err != nil {
+		return err
+	}
+	if r.generated == nil {
+		r.generated = map[string]string{}
+	}
+	r.generated[filepath.Join(r.dir, target, "zz_verif_"+name)] = real
+	return nil
+}
+
 func (r *runner) buildOverlay() error {
 	r.overlay = map[string][]byte{}
 	r.ovFiles = map[string]string{}
+	for virt, real := range r.generated {
+		b, err := os.ReadFile(real)
+		if err != nil {
+			return err
+		}
+		r.overlay[virt] = b
+		r.ovFiles[virt] = real
+	}
 	dirs := append([]string{"zzrt"}, r.spec.HarnessDirs...)
 	for _, d := range dirs {
 		real := "/verif/harness/" + d
